@@ -12,9 +12,10 @@ LEAN_MODULES = ["FimVerif.Proofs.C08"]
 P = "FimVerif.C08."
 THEOREMS = [P + t for t in (
     "remove_frame", "deleteAll_minus", "mem_cpDel", "removeCp_exact", "removeNs_exact", "removeComp_exact",
-    "removeNodeG_exact", "removeLink_exact", "removeNodeApi_exact", "removeFacilityApi_exact", "removeSwitchApi_exact",
-    "removeComponentApi_exact", "handle_fresh_disconnect", "handle_fresh_removeChild", "handle_fresh_unpeer",
-    "remove_exact_partial", "remove_exact_counterexample", "removeLink_orphan_counterexample",
+    "removeNodeG_exact", "removeLinkG_exact", "removeLink_exact", "removeNsApi_exact", "removeNodeApi_exact", "removeFacilityApi_exact", "removeSwitchApi_exact",
+    "removeComponentApi_exact", "remove_exact_ns", "remove_exact_comp", "remove_exact_nodeG", "remove_exact_node",
+    "remove_exact_facility", "remove_exact_switch", "remove_exact_component", "remove_exact_service", "remove_exact_link",
+    "remove_exact_child", "removeCp_after_general", "removeNs_exact_general_partial", "handle_fresh_disconnect", "handle_fresh_removeChild", "handle_fresh_unpeer",
 )]
 TRUSTED_BASE = [
     "Model/Remove.lean mirrors by hand remove_cp_and_links / remove_ns_with_cps_and_links / remove_component_with_nss_cps_and_links / "
@@ -40,7 +41,7 @@ RULE = ("every applicable removal / disconnect / un-peer / remove-child / prune 
 LEAN_OP = {"remove_node": "remove_node", "remove_switch": "remove_switch", "remove_facility": "remove_facility",
            "remove_component": "remove_component", "node_remove_ns": "remove_ns", "remove_network_service": "remove_ns",
            "remove_link": "remove_link", "disconnect": "disconnect", "unpeer": "unpeer", "remove_child": "remove_child",
-           "prune": "prune", "g_remove_cp": "g_remove_cp", "g_remove_comp": "g_remove_comp", "g_remove_node": "g_remove_node"}
+           "prune": "prune", "g_remove_ns": "g_remove_ns", "g_remove_link": "g_remove_link", "g_remove_cp": "g_remove_cp", "g_remove_comp": "g_remove_comp", "g_remove_node": "g_remove_node"}
 
 
 def corpus_cases():
@@ -75,6 +76,10 @@ def run_recipe(recipe, only_ops=None, graph_level=True):
                 if s0.nodes[c][0] == "ConnectionPoint":
                     ops.append(["g_remove_cp", c, 1])
                     ops.append(["g_remove_cp", c, 0])
+                elif s0.nodes[c][0] == "NetworkService":
+                    ops.append(["g_remove_ns", c])
+                elif s0.nodes[c][0] == "Link":
+                    ops.append(["g_remove_link", c])
                 elif s0.nodes[c][0] == "Component":
                     ops.append(["g_remove_comp", c])
                 elif s0.nodes[c][0] == "NetworkNode":
@@ -101,6 +106,12 @@ def run_recipe(recipe, only_ops=None, graph_level=True):
             # --- the implementation
             if op[0] == "g_remove_cp":
                 st = graph_call(b.t.graph_model.remove_cp_and_links, node_id=inv[op[1]], delete_parent=bool(op[2]))
+                hs = L.Handles()
+            elif op[0] == "g_remove_ns":
+                st = graph_call(b.t.graph_model.remove_ns_with_cps_and_links, node_id=inv[op[1]])
+                hs = L.Handles()
+            elif op[0] == "g_remove_link":
+                st = graph_call(b.t.graph_model.remove_network_link, node_id=inv[op[1]])
                 hs = L.Handles()
             elif op[0] == "g_remove_comp":
                 st = graph_call(b.t.graph_model.remove_component_with_nss_cps_and_links, node_id=inv[op[1]])
@@ -152,7 +163,7 @@ def lean_request(L, b, s0, op, recipe, wn, we):
     args, h1, h2, lists = [], [], [], []
     if k in ("g_remove_cp",):
         args = [op[1], op[2]]
-    elif k in ("g_remove_comp", "g_remove_node"):
+    elif k in ("g_remove_comp", "g_remove_node", "g_remove_ns", "g_remove_link"):
         args = [op[1]]
     elif k == "disconnect":
         s = b.svc[op[1]]
@@ -211,6 +222,10 @@ def correspondence(ctx, res, n=None):
         m = json.loads(m)
         if m[0] == "ok":
             hyp = m[1].pop("hyp", None)
+            hyp2 = m[1].pop("hyp2", None)
+            if hyp2 is not None:
+                # general (no link hypothesis) theorem for the interface loop: hypothesis holds and seqDelA = what was deleted
+                res.count("general-theorem-%s:%s" % ("holds" if hyp2 else "FAILS", r["lean"][0]))
             if hyp is not None:
                 # the hypothesis of the exactness theorem for this operation, evaluated by the driver on this pre-state
                 res.count("theorem-hypothesis-%s:%s" % ("holds" if hyp else "FAILS", r["lean"][0]))
